@@ -494,7 +494,9 @@ def run(ctx):
     except Exception as ex:  # noqa
         # an implementation broken badly enough to derail the driver after violations were already recorded:
         # report those violations rather than a machinery failure
-        if not ctx.violations:
+        from harness import core as _core
+        known = _core.load_known(ctx.prop)
+        if not any(_core.match_known(known, v['sig']) is None for v in ctx.violations):
             raise
         ctx.note('driver stopped by %s after %d violation signature(s)' % (type(ex).__name__, len(ctx.violations)))
 
